@@ -59,11 +59,12 @@ Theorem C03_left_associative :
 Proof. exact or_left_assoc. Qed.
 
 (* ---- the Pratt theorem ---- *)
-(* the JSON text chosen to spell a literal is read back as that literal (C14: the
-   literal token holds the text; for the text json.Marshal writes this is the JSON
-   round trip, proved for strings, checked by the run for whole values) *)
+(* the JSON text chosen to spell a literal: lit_text v is a JSON text of v whenever v
+   has one and not a JSON text otherwise (lit_spec, Proofs/ParserComplete.v).  Such a
+   choice exists (C04_lit_text_exists); json.Marshal's text is one wherever it is
+   read back (C16_json_round_trip) *)
 Variable lit_text : value -> bytes.
-Hypothesis lit_ok : forall v, is_json v = true -> json_unmarshal (lit_text v) = Some v.
+Hypothesis lit_ok : lit_spec lit_text.
 
 Theorem C03_parse_of_any_spelling :
   forall (e : expr) (ts : list token),
@@ -73,7 +74,8 @@ Theorem C03_parse_of_any_spelling :
 Proof. exact (parse_tokens_complete lit_text lit_ok). Qed.
 
 Theorem C03_parse_render :
-  forall e : expr, wp e = true -> npos e = true -> parse_tokens (render lit_text e ++ [tk tEOF []]) = Ok (compile e).
+  forall e : expr, wp e = true -> npos e = true -> lits_valid (render lit_text e) ->
+    parse_tokens (render lit_text e ++ [tk tEOF []]) = Ok (compile e).
 Proof. exact (parse_render lit_text lit_ok). Qed.
 
 (* from bytes: Compile on the spaced text of a well-precedenced tree is its AST;
